@@ -142,7 +142,7 @@ def gen_cases(ctx):
     alph_small = [b'a', b'b', b'', b'c']
     alph_words = [w.encode() for w in WORDS]
     alph_uni = [w.encode() for w in UNI]
-    n_rand = 900 if quick else 24000
+    n_rand = 1600 if quick else 24000
     for i in range(n_rand):
         alphabet = rng.choice([alph_small, alph_small, alph_words, alph_uni, alph_small[:2]])
         styles = rng.choice([['lf'], ['lf'], ['crlf'], ['mixed'], ['cr'], ['lf', 'crlf']])
@@ -157,7 +157,7 @@ def gen_cases(ctx):
     # real policies against their formatted / mutated / templated versions
     files = policy_files()
     files = [f for f in files if os.path.getsize(f) < (9000 if quick else 40000)]
-    n_pol = 36 if quick else 420
+    n_pol = 90 if quick else 420
     for i in range(n_pol):
         f = rng.choice(files)
         src = open(f, 'rb').read()
@@ -179,7 +179,7 @@ def gen_cases(ctx):
             add('policy-mut', src, mutate(rng, mutate(rng, src, ['lf']), ['lf']))
 
     # malformed stream: arbitrary bytes (invalid UTF-8, NUL, only terminators)
-    n_mal = 150 if quick else 3000
+    n_mal = 300 if quick else 3000
     for i in range(n_mal):
         def blob():
             n = rng.below(24)
@@ -227,6 +227,8 @@ def go_bad(o):
         return 'edit position outside the document'
     if not o['char0']:
         return 'unexpected non-zero character'
+    if o.get('closed') and not o['strict']:
+        return 'position past the last line although the document ends with a line terminator'
     return None
 
 
@@ -480,6 +482,22 @@ def run(ctx):
 
     proof_gate(ctx, 'compute_edits_sound / compute_edits_total')
 
+    # ---- self-test of the tie: perturbed observations must be flagged by both comparison functions
+    r1set = set(r1)
+    st_src = [it for i, it in enumerate(items) if it[2] and i not in r1set][:200:40][:5]
+    st_items = []
+    for b0, a0, ed in st_src:
+        e2 = [list(e) for e in ed]
+        e2[0][2] = e2[0][2] + 1          # end line of the first edit moved by one
+        st_items.append((b0, a0, e2))
+    selftest_ok = None
+    if st_items and not ctx.replay:
+        s1, s2, _, _ = coq_shards(ctx, st_items, tag='selftest', nshards=1)
+        selftest_ok = (s1 == list(range(len(st_items))))
+        if not selftest_ok:
+            vlib.violation(ctx, {'kind': 'self-test', 'what': 'perturbed edit lists were not flagged by Check.C16Check.case_agrees',
+                                 'flagged': s1, 'expected': len(st_items)}, no_input=True)
+
     # ---- evidence
     hist_kind, hist_edits, hist_rounds, hist_lines = {}, {}, {}, {}
     distinct = set()
@@ -489,10 +507,10 @@ def run(ctx):
         ne = len(o['edits'])
         hist_edits[min(ne, 10)] = hist_edits.get(min(ne, 10), 0) + 1
         d = rounds[idx]
-        bucket = d if d < 8 else (8 if d < 16 else (16 if d < 64 else 64))
+        bucket = 'both-empty' if d < 0 else (d if d < 8 else ('8-15' if d < 16 else ('16-63' if d < 64 else '64+')))
         hist_rounds[bucket] = hist_rounds.get(bucket, 0) + 1
         nl = o['nlines']
-        lb = nl if nl < 5 else (5 if nl < 15 else (15 if nl < 100 else 100))
+        lb = nl if nl < 5 else ('5-14' if nl < 15 else ('15-99' if nl < 100 else '100+'))
         hist_lines[lb] = hist_lines.get(lb, 0) + 1
         if c['before'] != c['after'] and ne > 0:
             distinct.add((c['before'], c['after']))
@@ -517,7 +535,7 @@ def run(ctx):
         'positions_relying_on_end_of_document_clamp': clamp_needed,
         'mismatch_model_vs_implementation': len(r1), 'spec_rejects_real_edits': len(r2), 'spec_rejects_model_edits': len(r3),
         'predicate_failures_go_side': len(pred_bad),
-        'go_seconds': round(t_go, 1), 'coq_seconds': round(t_coq, 1),
+        'go_seconds': round(t_go, 1), 'coq_seconds': round(t_coq, 1), 'selftest_perturbed_cases_flagged': selftest_ok,
         'samples': samples,
     })
     return vlib.finish(ctx, 'proof', cov, [
